@@ -578,7 +578,7 @@ class ReplySuite:
                 run.oracle_fail("payload parameters after the round trip are %s, the builder was given %s" % (json.dumps(got)[:150], json.dumps(want)[:150]), desc)
 
 
-def check(run, pid, module, theorems, replay=None):
+def check(run, pid, module, theorems, replay=None, translated=None):
     if replay:
         data = json.load(open(replay))
         run.seed = data.get("seed", run.seed)
@@ -586,6 +586,11 @@ def check(run, pid, module, theorems, replay=None):
     rng = random.Random(run.seed)
     thorough = run.tier == "thorough"
     preamble(run, module, theorems)
+    if translated:
+        # theorems about generated code translated from its templates (strengthening tie; the L1 / L2 runs below decide anyway)
+        from . import libcommon
+        libcommon.regen_imp(run)
+        run.prove(translated[0], translated[1], strengthening=True)
     run_l1(run, pid, rng, 1500 if thorough else 200)
     c = build_corpus(run, thorough)
     try:
